@@ -28,6 +28,14 @@ CHECKS_FOR = {
     "categorized_key_extract.py": ["C18", "C06", "C19"],
     "german_strom_and_gas_tag.py": ["C20"],
     "rc_evaluators.py": ["C12", "C04"],
+    "evaluation_results.py": ["C19", "C09"],
+    "content_evaluation_result.py": ["C19", "C06"],
+    "tree_schema.py": ["C19"],
+    "ahb_expression_parser.py": ["C02", "C09", "C11"],
+    "enums.py": ["C09", "C14", "C13", "C19"],
+    "fc_evaluators.py": ["C08", "C15", "C12", "C20"],
+    "format_constraint_expression_evaluation.py": ["C08", "C07", "C09"],
+    "package_expansion.py": ["C10", "C17", "C18"],
 }
 
 
